@@ -499,6 +499,7 @@ class Expander:
 
         # parse the group
         spec_sig, edits, loops, anchors = [], [], {}, []
+        opt_loops = set()
         cur = ("sig", None)
         def add_line(text):
             if cur[0] == "sig":
@@ -524,7 +525,11 @@ class Expander:
                 edits.append([eo, m.group(3), m.group(4)])
                 cur = ("edit", len(edits) - 1)
             elif g.startswith("loop"):
+                # `loop? k`: a spec for a loop that a change may legitimately remove (then nothing is attached and the
+                # function is verified as it stands); `loop k`: the loop must exist (lost anchor otherwise)
                 k = int(g.split()[1]); cur = ("loop", k)
+                if g.startswith("loop?"):
+                    opt_loops.add(k)
             elif g.startswith("before") or g.startswith("after"):
                 m = re.match(r"(before|after)(\[(\d+)\])?\s+(.*)$", g)
                 anchors.append((m.group(1), int(m.group(3) or 1), m.group(4), []))
@@ -567,6 +572,7 @@ class Expander:
             pieces = self.apply_rewrites(pieces)
             self.emit_item(src, item_name, "fn", props, pieces)
             return
+        self._opt_loops = opt_loops
         body_pieces = self._body_pieces(body, loops, anchors, name)
         body_pieces = self._cfg_in_body(body_pieces, name)
         for eo, old, new in edits:
@@ -626,6 +632,9 @@ class Expander:
                     and not (i > 0 and body[i-1].text in ("<", "impl"))]   # `for<'a>` hrtb unlikely
         for k, lines in loops.items():
             if k > len(loop_idx):
+                if k in getattr(self, "_opt_loops", ()):
+                    self.log.append("fn %s: optional spec of loop %d not attached (the loop is not there)" % (name, k))
+                    continue
                 raise VxError("lost anchor: fn %s loop %d" % (name, k))
             i = loop_idx[k-1]
             # first `{` at paren depth 0 after the keyword
